@@ -1,9 +1,9 @@
 SPECIFICATION MCSpec
 CONSTANTS
   SetupIds = {1}
-  RegIds = {1,2}
-  FileIds = {1,2}
-  CliIds = {1,2}
+  RegIds = {1,2,3,4}
+  FileIds = {1,2,3,4}
+  CliIds = {1,2,3}
   SrvIds = {1}
   TrackObs = TRUE
   TrackDeps = FALSE
